@@ -111,6 +111,7 @@ class FSWorld:
         self.own = {}                 # temporary files of this process: path -> "open" | "complete" | "garbage"
         self.content = {}             # what this process wrote last (for the postconditions)
         self.protected = set()
+        self.docs = {}                # path -> document found on disk (default: stored_document)
         self.n = 0
 
     def event(self, kind, *a):
@@ -152,9 +153,10 @@ def fs():
     return sym.cur().ghost.get("fs", BOOT)
 
 
-def activate(protected):
+def activate(protected, docs=None):
     w = FSWorld()
     w.protected = {str(p) for p in protected}
+    w.docs = {str(k): v for k, v in (docs or {}).items()}
     sym.cur().ghost["fs"] = w
     return w
 
@@ -231,7 +233,16 @@ class _File:
             # a file this process wrote itself (nobody else touches it: rely)
             d = w.content.get(self.path)
             return d if isinstance(d, str) else _json.dumps(d)
-        return _json.dumps(stored_document(self.path))
+        return _DocText(w.docs.get(self.path) or stored_document(self.path))
+
+
+class _DocText(str):
+    """the text of a complete JSON document (its parsed form is carried along: values may be symbolic)"""
+
+    def __new__(cls, doc):
+        o = str.__new__(cls, "<complete JSON document>")
+        o.doc = doc
+        return o
 
 
 class _Version:
@@ -399,7 +410,13 @@ _Os.close = staticmethod(lambda fd: None)
 class _Json:
     @staticmethod
     def load(f, *a, **kw):
-        return _json.loads(f.read())
+        return _Json.loads(f.read())
+
+    @staticmethod
+    def loads(x, *a, **kw):
+        if isinstance(x, _DocText):
+            return {k: (list(v) if isinstance(v, list) else v) for k, v in x.doc.items()}
+        return _json.loads(x, *a, **kw)
 
     @staticmethod
     def dump(obj, f, *a, **kw):
@@ -591,31 +608,6 @@ class from_json_file(_FsContract):
 
     def post(self, c, a, res, old=None):
         yield Clause("loads_the_document", isinstance(res, dict) and dict(res).get("plot_figsize") == [7, 7], role="prop")
-
-
-@register
-class set_config(_FsContract):
-    name = MC + "set_config"
-
-    def cases(self):
-        return [{"kind": "default_path"}, {"kind": "str"}]
-
-    def args(self, c, kind="default_path"):
-        m = settings_mod()
-        p = m.DEFAULT_PATH if kind == "default_path" else "/work/my_config.json"
-        w = activate([p])
-        w.known.add(str(p))         # evo_config checks that the file exists before editing it
-        return dict(config_path=p, arg_list=["plot_split", "plot_figsize", "5", "6", "plot_backend", "Agg"])
-
-    def post(self, c, a, res, old=None):
-        w = fs()
-        d = str(_os.fspath(a.config_path))
-        doc = w.content.get(d)
-        before = stored_document(d)
-        yield Clause("edited_document_moved_into_place", isinstance(doc, dict) and set(doc) == set(before) and
-                     doc.get("plot_figsize") == [5, 6] and doc.get("plot_backend") == "Agg", role="prop", props=["C19", "C18"])
-        for cl in self.common_post(c, w, old):
-            yield cl
 
 
 @register
